@@ -28,5 +28,10 @@ if __name__ == '__main__':
     ids = sys.argv[1:] or sorted(os.listdir(os.path.join(V, 'refactors')))
     for rid in ids:
         if not os.path.exists(os.path.join(V, 'refactors', rid, 'refactor.diff')): continue
-        r = evaluate(rid, 'quick')
+        d = os.path.join(V, 'refactors', rid); lock = os.path.join('/tmp', 'refeval_%s.lock' % rid)
+        if os.path.exists(os.path.join(d, 'result.json')) and os.path.getmtime(os.path.join(d, 'result.json')) > os.path.getmtime(os.path.join(d, 'refactor.diff')): continue
+        try: os.close(os.open(lock, os.O_CREAT | os.O_EXCL))
+        except FileExistsError: continue
+        try: r = evaluate(rid, 'quick')
+        finally: os.unlink(lock)
         print('%-8s applies=%s tests=[%s] alarms=%s' % (rid, r.get('applies'), r.get('tests', ''), r.get('alarms')), flush=True)
